@@ -260,6 +260,9 @@ fn backend(listener: TcpListener, cfg: BackCfg, tx: mpsc::Sender<String>) {
 }
 
 /// waits for the answer (HEADERS) of `sid`: Some(first HPACK byte) / None
+/// response body of the `leftover` mode's backend
+const LEFTOVER_BODY: usize = 120000;
+
 fn wait_answer(p: &mut Peer, sid: u32, secs: u64) -> Option<u8> {
     let fr = p.read_until(Duration::from_secs(secs), |f| f.iter().any(|x| x.sid == sid && (x.t == T_HEADERS || x.t == T_RST)));
     fr.iter().find(|x| x.sid == sid && x.t == T_HEADERS).and_then(|x| x.payload.first().copied())
@@ -293,14 +296,44 @@ fn main() {
         _ => BackCfg { mcs: None, hold_first: false, mcs0_after_first: false, delay_ms: 0, shrink: false, resettings: false },
     };
     let txb = tx.clone();
-    std::thread::spawn(move || backend(back_listener, cfg, txb));
+    if mode == "leftover" {
+        // an HTTP/1.1 backend answering every request with LEFTOVER_BODY bytes (Content-Length framing)
+        std::thread::spawn(move || {
+            for s in back_listener.incoming() {
+                let Ok(mut s) = s else { continue };
+                std::thread::spawn(move || {
+                    let _ = s.set_read_timeout(Some(Duration::from_secs(20)));
+                    let mut acc: Vec<u8> = vec![];
+                    let mut buf = [0u8; 8192];
+                    loop {
+                        match s.read(&mut buf) {
+                            Ok(0) | Err(_) => return,
+                            Ok(n) => acc.extend_from_slice(&buf[..n]),
+                        }
+                        while let Some(pos) = acc.windows(4).position(|w| w == b"\r\n\r\n") {
+                            acc.drain(..pos + 4);
+                            let head = format!("HTTP/1.1 200 OK\r\nContent-Length: {LEFTOVER_BODY}\r\n\r\n");
+                            if s.write_all(head.as_bytes()).is_err() || s.write_all(&vec![b'L'; LEFTOVER_BODY]).is_err() {
+                                return;
+                            }
+                        }
+                    }
+                });
+            }
+        });
+    } else {
+        std::thread::spawn(move || backend(back_listener, cfg, txb));
+    }
     let mut w = start_worker();
     let mut l = https_listener_config(front);
-    if mode == "pad" {
+    if mode == "pad" || mode == "refused" {
         l.h2_initial_connection_window = Some(65535);
     }
+    if mode == "refused" {
+        l.h2_max_concurrent_streams = Some(1);
+    }
     // "tiny": the same upload with the default (1 MiB) connection window, so thousands of small frames queue up for one ready() call
-    configure_https(&mut w, l, front, back, true);
+    configure_https(&mut w, l, front, back, mode != "leftover");
 
     let Some(mut p) = Peer::connect(front) else {
         println!("viol bb-infra could not connect");
@@ -398,6 +431,141 @@ fn main() {
             println!("obs cancel first_answer={a1:?} second_answer={a3:?}");
             if a3 != Some(0x88) {
                 println!("viol request-lost the request sent after a cancelled one was not answered 200 (first HPACK byte {a3:?})");
+            }
+        }
+        "refused" => {
+            // listener: MAX_CONCURRENT_STREAMS = 1, connection window 65535.  One burst: five POSTs, then 16000 bytes of DATA on
+            // each of the four that sozu refuses (64000 bytes of the connection window spent on streams that are gone), then the
+            // surviving stream uploads 60000 bytes within the windows sozu grants.  Every byte spent must come back.
+            let announced = announced_stream_window(&p);
+            let mut b = vec![];
+            for sid in [1u32, 3, 5, 7, 9] {
+                b.extend(frame(T_HEADERS, 4, sid, &request_block(true, "/upload")));
+            }
+            for sid in [3u32, 5, 7, 9] {
+                b.extend(frame(T_DATA, 0, sid, &vec![b'r'; 16000]));
+            }
+            p.send(&b);
+            let (mut win, mut conn_win) = (announced, 65535i64 - 64000);
+            for f in &p.early {
+                if f.t == T_WU && f.sid == 0 && f.payload.len() == 4 {
+                    conn_win += u32::from_be_bytes([f.payload[0], f.payload[1], f.payload[2], f.payload[3]]) as i64;
+                }
+            }
+            let (body, mut sent, mut refused) = (60000usize, 0usize, 0usize);
+            let mut status = None;
+            let mut last_progress = Instant::now();
+            while status.is_none() && !p.closed && last_progress.elapsed() < Duration::from_secs(6) {
+                while sent < body && win > 0 && conn_win > 0 {
+                    let n = (body - sent).min(win as usize).min(conn_win as usize).min(16384);
+                    sent += n;
+                    p.send(&frame(T_DATA, (sent == body) as u8, 1, &vec![b'u'; n]));
+                    win -= n as i64;
+                    conn_win -= n as i64;
+                    last_progress = Instant::now();
+                }
+                for f in p.read_until(Duration::from_millis(200), |f| !f.is_empty()) {
+                    match f.t {
+                        T_WU if f.payload.len() == 4 => {
+                            let inc = u32::from_be_bytes([f.payload[0], f.payload[1], f.payload[2], f.payload[3]]) as i64;
+                            if f.sid == 0 {
+                                conn_win += inc;
+                            } else if f.sid == 1 {
+                                win += inc;
+                            }
+                            last_progress = Instant::now();
+                        }
+                        T_RST if f.sid != 1 => refused += 1,
+                        T_HEADERS if f.sid == 1 => status = f.payload.first().copied(),
+                        T_RST if f.sid == 1 => status = Some(0),
+                        T_GOAWAY => status = Some(1),
+                        _ => {}
+                    }
+                }
+            }
+            println!("obs refused refused_streams={refused} uploaded={sent} of {body} win={win} conn_win={conn_win} status={status:?}");
+            if refused < 4 {
+                println!("obs refused note: only {refused} of the 4 extra streams were refused");
+            }
+            if status != Some(0x88) {
+                println!(
+                    "viol receiver-credit-stalled 64000 bytes of DATA were spent on {refused} refused streams, then the surviving upload stopped at {sent} of {body} bytes (client windows left {win}/{conn_win}, answer {status:?}): the connection window was not replenished for DATA of streams that are gone"
+                );
+            }
+        }
+        "leftover" => {
+            // sequential responses of LEFTOVER_BODY bytes on one connection; what a stream may send before any credit is the
+            // client's initial window (65535), whatever the previous stream of the connection left behind
+            p.send(&frame(T_WU, 0, 0, &(1u32 << 24).to_be_bytes()));
+            let mut check = |sid: u32, grant: u32| {
+                p.send(&frame(T_HEADERS, 5, sid, &request_block(false, "/big")));
+                // everything sozu sends without stream credit, until it has been quiet for 700 ms
+                let mut got = 0usize;
+                let mut quiet = Instant::now();
+                while quiet.elapsed() < Duration::from_millis(700) && !p.closed {
+                    for f in p.read_until(Duration::from_millis(100), |f| !f.is_empty()) {
+                        if f.t == T_DATA && f.sid == sid {
+                            got += f.payload.len();
+                            quiet = Instant::now();
+                        }
+                    }
+                }
+                println!("obs leftover stream={sid} sent_without_credit={got}");
+                if got > 65535 {
+                    println!("viol over-stream-window stream {sid}: {got} bytes of response DATA sent before any WINDOW_UPDATE, the client's initial window is 65535");
+                } else if got < 65535 {
+                    println!("viol transfer-stalled stream {sid}: only {got} bytes of response DATA sent although the client's initial window allows 65535 (the stream started with what its predecessor left)");
+                }
+                // let it finish, leaving `65535 + grant - LEFTOVER_BODY` behind
+                p.send(&frame(T_WU, 0, sid, &grant.to_be_bytes()));
+                let mut done = false;
+                let t0 = Instant::now();
+                while !done && t0.elapsed() < Duration::from_secs(6) && !p.closed {
+                    for f in p.read_until(Duration::from_millis(200), |f| !f.is_empty()) {
+                        if f.sid == sid && f.t == T_DATA {
+                            got += f.payload.len();
+                            done |= f.flags & 1 == 1;
+                        }
+                    }
+                }
+                if !done || got != LEFTOVER_BODY {
+                    println!("viol transfer-stalled stream {sid}: {got} of {LEFTOVER_BODY} bytes received after a WINDOW_UPDATE of {grant}");
+                }
+            };
+            check(1, 200000);                             // generous: 145535 left behind
+            check(3, (LEFTOVER_BODY - 65535) as u32);      // thrifty: exactly 0 left behind
+            check(5, 200000);
+        }
+        "hpack2" => {
+            // two SETTINGS_HEADER_TABLE_SIZE changes before sozu's next header block: flush (0), then allow 4096 again.
+            // RFC 7541 4.2: the block must start with the smallest size of the interval, then the final one.
+            p.send(&[settings(&[(1, 0)]), settings(&[(1, 4096)]), frame(T_HEADERS, 5, 1, &request_block(false, "/hp"))].concat());
+            let fr = p.read_until(Duration::from_secs(4), |f| f.iter().any(|x| x.sid == 1 && x.t == T_HEADERS));
+            let block = fr.iter().find(|x| x.sid == 1 && x.t == T_HEADERS).map(|x| x.payload.clone()).unwrap_or_default();
+            // leading dynamic-table-size updates (001xxxxx, 5-bit prefix integers)
+            let mut sizes: Vec<u64> = vec![];
+            let mut i = 0;
+            while i < block.len() && block[i] & 0xe0 == 0x20 {
+                let mut v = (block[i] & 0x1f) as u64;
+                i += 1;
+                if v == 31 {
+                    let mut shift = 0;
+                    while i < block.len() {
+                        v += ((block[i] & 0x7f) as u64) << shift;
+                        shift += 7;
+                        i += 1;
+                        if block[i - 1] & 0x80 == 0 {
+                            break;
+                        }
+                    }
+                }
+                sizes.push(v);
+            }
+            println!("obs hpack2 size_updates={sizes:?} block_starts={:02x?}", &block[..block.len().min(8)]);
+            if block.is_empty() {
+                println!("viol request-lost no response header block after two table-size changes");
+            } else if sizes.first() != Some(&0) || sizes.len() != 2 || sizes[1] == 0 || sizes[1] > 4096 {
+                println!("viol hpack-size-update the header block after SETTINGS_HEADER_TABLE_SIZE 0 then 4096 starts with the size updates {sizes:?}; RFC 7541 4.2 requires the smallest size of the interval (0) and then the final one");
             }
         }
         "resettings" => {
